@@ -410,7 +410,7 @@ func (p *TemplateSignature) instantiate(pkg *Package, fn *internal.Elem, args []
 			}
 		}
 	}
-	if p.isOp() {
+	if p.isOp() && len(args) == 2 {
 		// fix binary bigint -> rat
 		if args[0].Type == pkg.utBigRat && args[1].Type == pkg.utBigInt {
 			nargs[1] = &internal.Elem{
